@@ -46,7 +46,9 @@ TNormal ==
      /\ calls' = (Ev.tok :> [probe |-> Ev.probe, kind |-> Ev.kind]) @@ calls
      /\ postClose' = IF closeReturned THEN postClose \cup {Ev.tok} ELSE postClose
      /\ UNCHANGED <<ctxEnded, served, result, closeReturned>>
-  \/ /\ Is("CtxEnd") /\ Step /\ ctxEnded' = ctxEnded \cup {Ev.tok}
+  \/ /\ (Is("CtxEnd") \/ Is("MustServe")) /\ Step /\ ctxEnded' = ctxEnded \cup {Ev.tok}
+     \* (MustServe: the connection of a pending call broke: the call has to be completed
+     \*  with an error without any help, like a call whose context ended)
      /\ UNCHANGED <<calls, served, result, closeReturned, postClose>>
   \/ /\ Is("StubRet") /\ Step /\ ~Ev.panicked
      /\ result' = (Ev.tok :> Ev.tag) @@ result
